@@ -691,9 +691,10 @@ def build11(m):
     m.namespaces['mistletoe.span_token']['_tags'] = ('charset', 'html_tags')
     m.ufunc('in_html_tags', [STR], BOOL)
     method('HtmlBlock', 'start', Contract(
-        MOD + ':HtmlBlock.start', [('cls', cls_t('HtmlBlock')), ('line', STR)], returns=None,
+        MOD + ':HtmlBlock.start', [('cls', cls_t('HtmlBlock')), ('line', STR)], returns=INT,
         requires=["line.endswith('\\n')"],
-        ensures=[("implies(result, written('HtmlBlock._end_cond'))", ['C05', 'C11', 'C03']),
+        ensures=['0 <= result', 'result <= 7',
+                 ("implies(result, written('HtmlBlock._end_cond'))", ['C05', 'C11', 'C03']),
                  # a started HTML block begins on a non-blank line (HtmlBlock.read relies on it)
                  ("implies(result, line.strip() != '')", ['C01'])],
         modifies=['G:HtmlBlock._end_cond'],
@@ -879,3 +880,39 @@ def build16(m):
     c.modifies = ['self.line_number', 'self.row_align', 'self.children', 'N:TableCell.line_number']
     c.prop = ['C01', 'C13']
     c.body_types = {}
+
+
+def build17(m):
+    """The remaining paragraph interrupters refine the INTERRUPTER protocol (C01, C05): they look at
+    the next line only and leave the cursor where it was; Footnote.start."""
+    def method(cls, name, c, static=False, classmethod_=False):
+        m.methods[(cls, name)] = c.key
+        c.is_static = static
+        c.is_classmethod = classmethod_
+        m.add(c)
+        return c
+    REQ = ['CURSOR_OK(lines)', 'lines._index + 1 < len(lines.lines)']
+    ENS = ['lines._index == old(lines._index)', 'CURSOR_OK(lines)']
+    method('Heading', 'check_interrupts_paragraph', Contract(
+        MOD + ':Heading.check_interrupts_paragraph', [('cls', cls_t('Heading')), ('lines', FW)], returns=BOOL,
+        requires=REQ, ensures=ENS + ['result == heading_matches(lines.lines[lines._index + 1])'],
+        modifies=['G:Heading.level', 'G:Heading.content', 'G:Heading.closing_sequence'],
+        prop=['C01', 'C05']), classmethod_=True)
+    method('Quote', 'check_interrupts_paragraph', Contract(
+        MOD + ':Quote.check_interrupts_paragraph', [('cls', cls_t('Quote')), ('lines', FW)], returns=BOOL,
+        requires=REQ, ensures=ENS + ["implies(result, lines.lines[lines._index + 1].lstrip(' ').startswith('>'))"],
+        prop=['C01', 'C05', 'C14']), classmethod_=True)
+    method('CodeFence', 'check_interrupts_paragraph', Contract(
+        MOD + ':CodeFence.check_interrupts_paragraph', [('cls', cls_t('CodeFence')), ('lines', FW)], returns=BOOL,
+        requires=REQ, ensures=ENS, modifies=['G:CodeFence._open_info'],
+        prop=['C01', 'C05']), classmethod_=True)
+    method('HtmlBlock', 'check_interrupts_paragraph', Contract(
+        MOD + ':HtmlBlock.check_interrupts_paragraph', [('cls', cls_t('HtmlBlock')), ('lines', FW)], returns=None,
+        requires=REQ, ensures=ENS, modifies=['G:HtmlBlock._end_cond'],
+        prop=['C01', 'C05']), classmethod_=True)
+    method('Footnote', 'start', Contract(
+        MOD + ':Footnote.start', [('cls', cls_t('Footnote')), ('line', STR)], returns=BOOL, pure=True,
+        ensures=["result == line.lstrip().startswith('[')",
+                 # C14: only a line whose first non-blank character is '[' is tried as a definition
+                 ("implies(result, '[' in line)", 'C14')],
+        prop=['C01', 'C14']), classmethod_=True)
